@@ -245,6 +245,17 @@ func (g *Gen) checkFunction(name string, p *PropConfig, bl *Baseline, tier strin
 		if !p.wantsKind(o.Kind, trustedPre) {
 			continue
 		}
+		if len(o.Tags) > 0 {
+			mine := false
+			for _, t := range o.Tags {
+				if t == p.ID {
+					mine = true
+				}
+			}
+			if !mine {
+				continue // belongs to another property's claim
+			}
+		}
 		if bl.Claimed[o.ID] || bl.All {
 			claimed = append(claimed, o)
 		} else {
@@ -254,7 +265,7 @@ func (g *Gen) checkFunction(name string, p *PropConfig, bl *Baseline, tier strin
 	results := map[*Oblig]*OblResult{}
 	var rmu sync.Mutex
 	mk := func(o *Oblig) *OblResult {
-		r := &OblResult{Func: name, ID: o.ID, Kind: o.Kind, Safety: o.Safety, Cover: o.Cover, Src: o.Src, Desc: o.Desc, Points: o.N}
+		r := &OblResult{Func: name, ID: o.ID, Kind: o.Kind, Safety: o.Safety, Cover: o.Cover, Src: o.Src, Desc: o.Desc, Points: o.N, Tags: o.Tags}
 		rmu.Lock()
 		results[o] = r
 		rmu.Unlock()
